@@ -1,4 +1,5 @@
 import DepLogic.Properties.C01
+import DepLogic.Proofs.CutAlgebra
 /-
   C05 — Specifier results are canonical: `==`, `is_empty()`, `is_any()` are exact.
 
@@ -7,7 +8,13 @@ import DepLogic.Properties.C01
   T2 (dense linear preorder without endpoints = "membership read structurally from the
       bounds"): they are also complete.
   The PEP 440 order itself is *not* dense (`1.0` and `1.0.post0.dev0` are neighbours), so
-  the completeness direction genuinely fails on gap ranges – see `gap_counterexample`.
+  the completeness direction genuinely fails on gap ranges – known finding G1.
+  T3 (ANY linear preorder, PEP 440 included): read over CUTS — the positions at, just below and
+      just above a bound, which is what "membership read structurally from the bounds" means
+      when the order has neighbours — `==`, `is_empty()` and `is_any()` are exact:
+      `eq_exact`, `isEmpty_exact_cuts`, `isAny_exact_cuts`.  The point `v` is the cut `(v, 1)`
+      (`cut_point`), so equal objects admit the same versions (`eq_sound`); the converse for
+      versions alone is exactly what G1 refutes.
 -/
 namespace DepLogic
 namespace C05
@@ -153,6 +160,51 @@ theorem isAny_exact [DenseUnbounded α] (a b r : Spec α) (ha : Canon a) (hb : C
     | false =>
       obtain ⟨v, hv⟩ := canon_not_any_misses r h2 he
       exact absurd ((h3 v).2 (h v)) hv
+
+/-! ### T3: exactness over cuts, for every linear preorder -/
+
+/-- the version `v` is the cut at side 1 -/
+theorem cut_point (a : Spec α) (v : α) : a.memC v 1 ↔ a.mem v := memC_point a v
+
+/-- `==` between results is exactly "denote the same set of cuts" -/
+theorem eq_exact (a0 : α) (a b : Spec α) (ha : Canon a) (hb : Canon b) :
+    a.beq b = true ↔ ∀ x s, a.memC x s ↔ b.memC x s := beq_iff_memC a0 a b ha hb
+
+/-- equal objects admit the same versions -/
+theorem eq_sound (a b : Spec α) (h : a.beq b = true) (v : α) : a.mem v ↔ b.mem v := by
+  rw [← cut_point, ← cut_point]; exact memC_of_beq a b h v 1
+
+/-- `is_empty()` holds exactly of results that denote no cut -/
+theorem isEmpty_exact_cuts (a0 : α) (a : Spec α) (ha : Canon a) :
+    a.isEmpty = true ↔ ∀ x s, ¬ a.memC x s := by
+  constructor
+  · intro h x s; cases a <;> simp [isEmpty] at h; simp [memC, mem]
+  · intro h
+    have := canon_unique a0 a .empty ha trivial (fun x s => ⟨fun hm => absurd hm (h x s), fun hm => by simp [memC, mem] at hm⟩)
+    cases a <;> simp [Spec.beq, isEmpty, isAny] at this ⊢
+
+/-- `is_any()` holds exactly of results that denote every cut -/
+theorem isAny_exact_cuts (a0 : α) (a : Spec α) (ha : Canon a) :
+    a.isAny = true ↔ ∀ x s, a.memC x s := by
+  constructor
+  · intro h x s
+    cases a with
+    | any => exact memC_any x s
+    | range r => exact memC_isAny r h x s
+    | empty => simp [isAny] at h
+    | union _ _ => simp [isAny] at h
+  · intro h
+    have := canon_unique a0 .any a trivial ha (fun x s => ⟨fun _ => h x s, fun _ => memC_any x s⟩)
+    simpa [Spec.beq] using this
+
+/-- the G1 shape at PEP 440 versions: `(1.0, 1.0.post0.dev0)` admits no version although it is a
+    non-degenerate range; over cuts it is not empty (the cut just above `1.0` is in it) — which is
+    why the object is not `EmptySpecifier()` -/
+example : let g : Spec Ver := .range { min := some { release := [1, 0] },
+                                       max := some { release := [1, 0], post := some 0, dev := some 0 } }
+    Canon g ∧ g.memC { release := [1, 0] } 2 ∧ g.isEmpty = false := by
+  refine ⟨by decide, ?_, rfl⟩
+  rw [memC_range]; simp only [Range.memC, Range.lowOK, Range.upOK]; decide
 
 end C05
 end DepLogic
